@@ -113,7 +113,7 @@ def make_satisfiable(rng, fs, need=1):
 
 
 def gen_spec(rng, *, neutral=False, kind=None, max_cols=4, allow_index=True,
-             allow_regex=True, allow_frame_opts=True):
+             allow_regex=True, allow_frame_opts=True, neutral_regex=False):
     """neutral=True restricts to the vocabulary both backends support."""
     kind = kind or ("frame" if neutral or rng.random() < 0.85 else "series")
     if kind == "series":
@@ -130,9 +130,11 @@ def gen_spec(rng, *, neutral=False, kind=None, max_cols=4, allow_index=True,
         if rng.random() < 0.2:
             fs["required"] = False
         cols.append(fs)
-    if allow_regex and not neutral and rng.random() < 0.2:
+    if allow_regex and (not neutral or neutral_regex) and rng.random() < 0.2:
         # one regex column; its pattern must not capture other declared names
-        pat = rng.choice(["r_.*", "r\\d", "r_a|r_b", "r"])
+        # (polars anchors the pattern at both ends: only patterns that mean the
+        # same under prefix and full matching are used there)
+        pat = rng.choice(["r_.*", "r\\d"] if neutral else ["r_.*", "r\\d", "r_a|r_b", "r"])
         fs = gen_field(rng, pat)
         fs["regex"] = True
         fs["required"] = rng.random() < 0.7
